@@ -15,7 +15,7 @@ use pico::{Database, SourceId};
 use prelude::Postfix;
 
 use crate::{
-    read_files::{read_file, read_files_in_folder},
+    read_files::{is_source_file, read_file, read_files_in_folder},
     watch::{ChangedFileKind, SourceEventKind, SourceFileEvent},
     write_artifacts::unable_to_do_something_at_path_diagnostic,
 };
@@ -167,6 +167,11 @@ fn create_or_update_iso_literals<TCompilationProfile: CompilationProfile>(
     db: &mut IsographDatabase<TCompilationProfile>,
     path: &Path,
 ) -> LocationFreeDiagnosticResult<()> {
+    if !is_source_file(path) {
+        // Not a file a batch compile would read (another extension, or generated): it is
+        // not tracked, whatever it contains.
+        return Ok(());
+    }
     let (relative_path, content) =
         // TODO this function should live here
         read_file(path.to_path_buf(), db.get_current_working_directory())?;
